@@ -83,10 +83,17 @@ class ContainerScenario(Scenario):
             node = dict({"kind": "dict", "o": {}}, **d)
             sch["D%d" % i] = schema.make_field(B, sd, node, "D%d" % i)
             st.dspec["D%d" % i] = d
+        pt = cc.Schema()
+        pt.x = cc.IntField(default=0)
+        pt.y = cc.IntField(default=0)
+        st.Point = cc.make_type(pt, "Point", module="simtypes")
+        sch.CL = cc.ListField(st.Point)
+        st.cm = [[], []]
         st.schema = sch
         st.cfgs = [sch(), sch()]
         st.m = [{}, {}]     # per config: name -> model (list or dict); absent = proxy not created yet
         for c in (0, 1):
+            st.cfgs[c].CL = []
             for name in list(st.lspec) + list(st.dspec):
                 setattr(st.cfgs[c], name, [] if name in st.lspec else {})
                 st.m[c][name] = [] if name in st.lspec else {}
@@ -123,8 +130,10 @@ class ContainerScenario(Scenario):
             kind = rng.choice(["list", "tuple", "iter", "gen", "proxy-same-cfg", "proxy-other-cfg", "proxy-other-field", "list"])
             return kind
 
+        if rng.random() < 0.06:
+            return self.gen_cfglist_op(st, rng, c)
         what = rng.choice(["append", "append", "insert", "extend", "extend", "setitem", "setitem_indexobj", "slice_set", "xslice_set",
-                           "iadd", "add", "mul", "imul", "copy", "pop", "remove", "delitem", "delslice", "sort", "reverse", "clear",
+                           "iadd", "add", "radd", "mul", "imul", "copy", "pop", "remove", "delitem", "delslice", "sort", "reverse", "clear",
                            "index", "count", "contains", "getitem", "getslice", "eq", "iter"])
         op = {"op": "l:" + what, "cfg": c, "name": name}
         if what == "append":
@@ -132,6 +141,8 @@ class ContainerScenario(Scenario):
         elif what == "insert":
             op["i"] = rng.randint(-n - 2, n + 2)
             op["v"] = item()
+        elif what == "radd":
+            op["vs"] = items()
         elif what in ("extend", "iadd", "add"):
             op["src"] = source()
             op["vs"] = items()
@@ -254,8 +265,56 @@ class ContainerScenario(Scenario):
                 rec.fail("C17/contents", "C17/contents-differ/%s" % what,
                          "after %s the typed dict holds %r, the built-in %r" % (what, canon(list(got.items())), canon(list(m.items()))))
 
+    # ------------------------------------------------------------------ a list of config-type items (compared by value)
+    def gen_cfglist_op(self, st, rng, c):
+        what = rng.choice(["append", "append", "index", "index_bounds", "count", "contains", "remove", "pop"])
+        return {"op": "c:" + what, "cfg": c, "x": rng.randint(0, 2), "y": rng.randint(0, 1), "a": rng.randint(-1, 3), "b": rng.randint(0, 4), "i": rng.randint(0, 3)}
+
+    def do_cfglist(self, st, op, rec):
+        """Items are instances of a config type, which compare by value: the reference list holds the very objects the
+        typed list holds, so every query must answer exactly as the built-in does for them."""
+        c = op["cfg"] % 2
+        proxy = getattr(st.cfgs[c], "CL")
+        m = st.cm[c]
+        what = op["op"][2:]
+        rec.log(op["op"], c)
+        rec.kind("cfglist")
+        probe = st.Point(x=op["x"], y=op["y"])
+        if what == "append":
+            r, e, _, _ = self._both(lambda: proxy.append({"x": op["x"], "y": op["y"]}), lambda: None)
+            if e is None:
+                m.append(list.__getitem__(proxy, len(proxy) - 1))
+            rec.probe("cfglist-append")
+            return
+        if what == "index":
+            res = self._both(lambda: proxy.index(probe), lambda: m.index(probe))
+        elif what == "index_bounds":
+            a, b = op["a"], op["b"]
+            res = self._both(lambda: proxy.index(probe, a, b), lambda: m.index(probe, a, b))
+        elif what == "count":
+            res = self._both(lambda: proxy.count(probe), lambda: m.count(probe))
+        elif what == "contains":
+            res = self._both(lambda: probe in proxy, lambda: probe in m)
+        elif what == "remove":
+            res = self._both(lambda: proxy.remove(probe), lambda: m.remove(probe))
+        else:
+            i = op["i"]
+            res = self._both(lambda: proxy.pop(i) is None, lambda: m.pop(i) is None)
+        r, e, r2, e2 = res
+        rec.check()
+        rec.relevant += 1
+        if (e is None) != (e2 is None) or (e is None and r != r2):
+            rec.fail("C17/return", "C17/config-item-query-differs/%s" % what,
+                     "%s on a list of config-type items gave %r / %r, the built-in list of the same objects %r / %r" % (what, r, e, r2, e2))
+        got = list(list.__iter__(proxy))
+        if len(got) != len(m) or any(x is not y for x, y in zip(got, m)):
+            rec.fail("C17/contents", "C17/contents-differ/config-items/%s" % what, "after %s the typed list holds other objects than the built-in" % what)
+        rec.probe("cfglist-query:" + what)
+
     def apply(self, st, op, rec):
-        if op["op"].startswith("l:"):
+        if op["op"].startswith("c:"):
+            self.do_cfglist(st, op, rec)
+        elif op["op"].startswith("l:"):
             self.do_list(st, op, rec)
         else:
             self.do_dict(st, op, rec)
@@ -343,6 +402,11 @@ class ContainerScenario(Scenario):
                 self.compare(st, rec, "add:" + op.get("src", ""), proxy, m, r, e, r2, e2, check_ret=False)
                 if e is None:
                     self.check_typed_result(st, rec, "add", r, r2, spec, c)
+        elif what == "radd":
+            # a built-in list on the left: list.__add__ decides, the result starts with the left operand's items as given
+            left = [dec(x) for x in op.get("vs", [])]
+            r, e, r2, e2 = self._both(lambda: left + proxy, lambda: left + m)
+            self.compare(st, rec, "radd", proxy, m, list(r) if r is not None else r, e, r2, e2)
         elif what in ("setitem", "setitem_indexobj"):
             i = op["i"]
             idx = IndexObj(i) if what == "setitem_indexobj" else i
